@@ -20,6 +20,7 @@ REGISTRY = {
     "C11": ("syntax", "check_C11"),
     "C12": ("validate", "check_C12"),
     "C13": ("validate", "check_C13"),
+    "C02": ("model", "check_C02"),
     "C03": ("eems", "check_C03"),
     "C04": ("eems", "check_C04"),
     "C05": ("eems", "check_C05"),
